@@ -6,7 +6,7 @@ import ast
 from ..model import CFG
 from . import names
 from .common import site_of
-from .flow import (Oblig, calls, events, deps_of, arg_deps, SELF, P, result_locs, facts_on_path, has_fact)
+from .flow import (own, Oblig, calls, events, deps_of, arg_deps, SELF, P, result_locs, facts_on_path, has_fact)
 
 PROD = "pyformlang.cfg.production.Production"
 EXPLANATION = (
@@ -27,7 +27,7 @@ def run(eng, rep, tier):
     # -------------------------------------------------------------- C10.1 substitute
     fi = prog.method("CFG", "substitute")
     summ = interp.run_entry(fi, CFG)
-    prods = [ev for ev in summ.events if ev.kind == "new" and ev.callee == PROD]
+    prods = [ev for ev in own(summ) if ev.kind == "new" and ev.callee == PROD]
     bad = [ev for ev in prods if not ev.args or not ev.args[0].alias or
            any(not l[0].startswith("fresh:") for l in ev.args[0].alias)]
     ob.decide("R5", "C10.1", fi, "heads-renamed", bool(prods) and not bad,
@@ -52,6 +52,26 @@ def run(eng, rep, tier):
             if not any(isinstance(d, tuple) and len(d) == 2 and d[0] == root and isinstance(d[1], tuple)
                        and any(seg in ("variables", "_variables") for seg in d[1]) for d in deps):
                 unguarded.append(ev)
+    # simultaneous substitution: the productions taken from a substituted grammar are only renamed; the replacement of
+    # substituted terminals (by the start symbols of the operands) applies to the productions of self alone.  A body
+    # built from an operand's production must therefore not depend on any operand's start symbol.
+    seq = []
+    for ev in prods:
+        body = ev.args[1] if len(ev.args) > 1 else None
+        el = body.elem if body is not None else None
+        if el is None:
+            continue
+        roots = {l[0] for l in el.alias if not l[0].startswith("fresh:")}
+        if "self" in roots or not any(r.startswith("p:") for r in roots):
+            continue            # a production of self (or nothing raw): replacement is expected there
+        if any(isinstance(d, tuple) and len(d) == 2 and isinstance(d[1], tuple) and
+               any(seg in ("start_symbol", "_start_symbol") for seg in d[1]) for d in _all_deps(el)):
+            seq.append(ev)
+    ob.decide("R1", "C10.1", fi, "operand-bodies-not-substituted", not seq,
+              "productions taken from a substituted grammar are renamed only (simultaneous substitution)",
+              "the body of a production taken from a substituted grammar depends on the start symbol of an operand: the "
+              "replacement of substituted terminals is applied inside operands too (sequential instead of simultaneous "
+              "substitution)", summ, site=(seq[0].site.to_json() if seq else site_of(prog, fi, fi.node)))
     ob.decide("R5", "C10.1", fi, "unrenamed-only-if-not-a-variable", n_raw > 0 and not unguarded,
               "where a body keeps an operand's own symbol, the choice depends on that operand's variable set (renaming map)",
               "a body symbol can be copied un-renamed without consulting the operand's variables (capture)", summ,
@@ -121,7 +141,7 @@ def run(eng, rep, tier):
     # -------------------------------------------------------------- reverse
     fi = prog.method("CFG", "reverse")
     summ = interp.run_entry(fi, CFG)
-    prods = [ev for ev in summ.events if ev.kind == "new" and ev.callee == PROD]
+    prods = [ev for ev in own(summ) if ev.kind == "new" and ev.callee == PROD]
     rev = any(isinstance(s, ast.Subscript) and isinstance(s.slice, ast.Slice) and s.slice.step is not None and
               ast.unparse(s.slice.step) == "-1" and s.slice.lower is None and s.slice.upper is None
               for s in ast.walk(fi.node)) or any(isinstance(c, ast.Call) and getattr(c.func, "id", "") == "reversed"
